@@ -458,7 +458,7 @@ pub fn run(tier: Tier) -> i32 {
     }
     // iterative deviation bounding: bound 1 is completed for every configuration; thorough then
     // goes on to bound 2, configuration by configuration, until a wall-clock budget is used up
-    let budget_s: f64 = std::env::var("VERIF_C01_BUDGET_S").ok().and_then(|s| s.parse().ok()).unwrap_or(2400.0);
+    let budget_s: f64 = std::env::var("VERIF_C01_BUDGET_S").ok().and_then(|s| s.parse().ok()).unwrap_or(1200.0);
     let started = std::time::Instant::now();
     let pass = |k: usize, with_faults: bool, budget: Option<f64>, only_two_nodes: bool| -> Vec<Option<(u64, usize, Vec<Violation>, Option<u64>)>> {
         cfgs.par_iter()
